@@ -1278,7 +1278,12 @@ class Pool:
                         proc = cleaned.get(acked_by_gone)
                         if proc and getattr(proc, '_job_terminated', False):
                             job._set_terminated(exitcode)
-                        else:
+                        elif not job._worker_lost:
+                            # the loss is recorded once: a later pass
+                            # (another worker exiting during the grace
+                            # period) finds the owner missing again and
+                            # must not restart the period nor replace
+                            # the exit status by 0.
                             self.on_job_process_lost(
                                 job, acked_by_gone, exitcode,
                             )
